@@ -255,6 +255,10 @@ func (g *TreeGen) lit() SItem {
 	case 11:
 		return mkByte(byte(r.Next()))
 	case 12:
+		if r.Chance(40) {
+			// number literals written as raw tokens in non-canonical spelling (gofmt rewrites them)
+			return id(pick(r, []string{"0XFF00", "0O644", "0B1010", "6.022E23", "0X1P-2", "0123i", "1_000", "0x1F", "07"}))
+		}
 		return mkLit(pick(r, []string{"", "a", "hello", "default", "x y"}))
 	case 13:
 		return mkLit(uintptr(r.Next() >> uint(r.Intn(64))))
